@@ -129,6 +129,12 @@ def _case(args):
             out["shared"] = H.has_shared_job(b.spec) or out["shared"]
             s2 = copy.deepcopy(spec); eds[arg].spec(s2); out["shared"] = out["shared"] or H.has_shared_job(s2)
             out["fails"] = check_gc(b.system)
+        elif mode == "gc-after-grouped-edit":
+            eds = H.numeric_edits(spec)
+            i, j = arg
+            out["case"] = f"{tname}|{mode}|[{eds[i].name} , {eds[j].name}]"
+            ModelingUpdate([eds[i].change(b), eds[j].change(b)])
+            out["fails"] = check_gc(b.system)
         elif mode == "gc-after-simulation":
             cname, dname, toggles = arg
             date = dates_for(b).get(dname)
@@ -195,6 +201,12 @@ def run(tier, seed, procs=16):
         n = len(H.numeric_edits(spec) + H.link_edits(spec))
         for i in (range(n) if tier == "thorough" else [i for i in range(n) if (i + seed) % 3 == 0]):
             items.append((tname, spec, "gc-after-edit", i))
+        if tname in ("single", "two_independent_chains", "two_servers_repeated_job"):
+            # one update carrying two numeric changes, in both orders (the merged update order must suit both)
+            ne = H.numeric_edits(spec)
+            pairs = [(i, j) for i in range(len(ne)) for j in range(len(ne)) if i != j and ne[i].name.split("=")[0] != ne[j].name.split("=")[0]]
+            if tier == "quick": pairs = [p for k, p in enumerate(pairs) if (k + seed) % 4 == 0]
+            for p in pairs: items.append((tname, spec, "gc-after-grouped-edit", p))
         for cname in change_lists(None, spec):
             for dname, tg in (("first", "SR"), ("interior", ""), ("interior", "SRSR")):
                 items.append((tname, spec, "gc-after-simulation", (cname, dname, tg)))
@@ -217,7 +229,7 @@ def run(tier, seed, procs=16):
         elif r["shared"]: sig = "D1"
         viol.append({"signature": sig, "what": f"C08 {r['case']}: {r['status']} {r['fails'][:5]}", "input": {"case": r["case"]}})
     return {"evaluations": len(res), "distinct_nontrivial": len(nontrivial),
-            "rule": "one case = (topology, state: as built | after one edit | after a simulation and toggles) for graph consistency (both ends, held values only, acyclic), "
+            "rule": "one case = (topology, state: as built | after one edit | after one update grouping two numeric changes | after a simulation and toggles) for graph consistency (both ends, held values only, acyclic), "
                     "or (topology, one quantity input perturbed) for completeness (every attribute that differs in a system rebuilt from the perturbed input has the input among its transitive ancestors; "
                     "the update order of the input lists each dependent once and after its dependencies)",
             "samples": samples, "violations": viol, "exhaustive": False,
